@@ -171,6 +171,32 @@ fn raw_header(name: &[u8], size: usize, typeflag: u8) -> [u8; 512] {
 }
 
 /// Encode one tar entry (GNU long-name record when the name exceeds 100 bytes).
+/// Encode a non-regular entry (directory, link, fifo): header only, no data.
+pub fn tar_special_entry_bytes(name: &str, typeflag: u8) -> Vec<u8> {
+    let mut out = vec![];
+    let nb = name.as_bytes();
+    if nb.len() > 100 {
+        let mut d = nb.to_vec();
+        d.push(0);
+        out.extend_from_slice(&raw_header(b"././@LongLink", d.len(), b'L'));
+        out.extend_from_slice(&d);
+        out.resize((out.len() + 511) / 512 * 512, 0);
+    }
+    let mut h = raw_header(nb, 0, typeflag);
+    if typeflag == b'2' || typeflag == b'1' {
+        // link target
+        h[157..157 + 9].copy_from_slice(b"start.raw");
+        for x in &mut h[148..156] {
+            *x = b' ';
+        }
+        let sum: usize = h.iter().map(|&x| x as usize).sum();
+        let s = format!("{:06o}\0 ", sum);
+        h[148..156].copy_from_slice(s.as_bytes());
+    }
+    out.extend_from_slice(&h);
+    out
+}
+
 pub fn tar_entry_bytes(name: &str, data: &[u8]) -> Vec<u8> {
     let mut out = vec![];
     let nb = name.as_bytes();
